@@ -1649,7 +1649,11 @@ def gen_two_sets(rng):
         fl = [f for f in FLUXES if f is not None and f > 0 and f != 1]
         measured = None if rng.random() < 0.25 else [[target, str(rng.choice(fl))]]
         r = rng.random()
-        overrides = None if r < 0.35 else [] if r < 0.7 else [[target, str(rng.choice(fl))]]
+        # an override may name this data set's calibrator, ANOTHER calibrator (then the measured flux still counts) or both
+        other = rng.choice([n for n in NAMES if n != target])
+        overrides = (None if r < 0.3 else [] if r < 0.55 else [[target, str(rng.choice(fl))]] if r < 0.7 else
+                     [[other, str(rng.choice(fl))]] if r < 0.9 else
+                     [[other, str(rng.choice(fl))], [target, str(rng.choice(fl))]])
         tel = [dict(name='cal', type='sdp.cal', targets=None, ants=list(ants), pols=['v', 'h'], spectral=True,
                     n_chans=rng.choice([1, 2]), types=['K', 'B', 'G'] if rng.random() < 0.7 else ['G'])]
         sets.append(dict(tel=tel, archived=['sdp_l0', 'cal'], ants=ants, T=3, F=2, target=target, measured=measured,
@@ -1658,12 +1662,180 @@ def gen_two_sets(rng):
     return dict(kind='two_sets', sets=sets)
 
 
+# ------------------------------------------------------------------ (D) what calc_correction DELIVERS per data channel
+
+TOL_DELIVERED = 16 * 2.0 ** -23      # a product of two complex64 corrections (each within TOL of its exact value)
+
+
+def same_tol(z, mv, tol):
+    z = complex(z)
+    if mv is None:
+        return math.isnan(z.real) and math.isnan(z.imag)
+    if math.isnan(z.real) or math.isnan(z.imag):
+        return False
+    e = to_c(mv[0], mv[1])
+    return abs(z - e) <= tol * abs(e)
+
+
+def cal_grid(cal):
+    """SpectralWindow.channel_freqs: centre + bandwidth * (k - n // 2) / n"""
+    n, w, c = cal['n_chans'], Fr(cal['width']), Fr(cal['centre'])
+    return [c + w * (k - n // 2) for k in range(n)]
+
+
+def check_delivered(ctx, case):
+    """K / B solutions -> add_applycal_sensors -> calc_correction: the correction array per dump, DATA channel and
+    correlation product against the model (channel map + g1 conj g2) and the spec (the rule at the data channel's own
+    frequency), for cal channelisations equal to / offset from / narrower / coarser than / of another size than the data's"""
+    from katdal.applycal import calc_correction
+    ptype, N = case['ptype'], case['N']
+    ants, pols = case['ants'], case['pols']
+    dtype = np.dtype(case['dtype'])
+    cal = case['cal']
+    cf = cal_grid(cal)
+    df = [Fr(f) for f in case['data_freqs']]
+    inputs = sorted(a + p for a in ants for p in pols)
+    index = {a + p: (pi, ai) for pi, p in enumerate(pols) for ai, a in enumerate(ants)}
+    ts, vals = [], []
+    for dump, sol in case['sols']:
+        ts.append(float(dump))
+        if ptype == 'K':
+            a = np.zeros((len(pols), len(ants)))
+            for inp, d in sol.items():
+                a[index[inp]] = np.nan if d is None else float(Fr(d))
+        else:
+            a = np.ones((cal['n_chans'], len(pols), len(ants)), dtype=dtype)
+            for inp, bp in sol.items():
+                a[(slice(None),) + index[inp]] = c_array([None if v is None else (Fr(v[0]), Fr(v[1])) for v in bp], dtype)
+        vals.append(a)
+    cache = {'Observation/target': CategoricalData([0], [0, N]), 'cal_product_' + ptype: raw_sensor(ts, vals)}
+    sc = SensorCache(cache, timestamps=np.arange(N, dtype=float), dump_period=1., props=SENSOR_PROPS, virtual={})
+    attrs = dict(antlist=ants, pol_ordering=pols, center_freq=float(Fr(cal['centre'])),
+                 bandwidth=float(Fr(cal['width']) * cal['n_chans']), n_chans=cal['n_chans'])
+    data_freqs = np.array([float(f) for f in df])
+    pairs = [tuple(pr) for pr in case['pairs']]
+    corrprods = [(inputs[a], inputs[b]) for a, b in pairs]
+    # every input must take part (calc_correction only looks at the inputs of the corrprods)
+    chunks = ((N,), (len(df),), (len(corrprods),))
+    bad = None
+    with warnings.catch_warnings():
+        warnings.simplefilter('ignore')
+        cal_freqs = add_applycal_sensors(sc, attrs, data_freqs, 'cal', gaincal_flux=None)
+        if [Fr(float(f)) for f in cal_freqs] != cf:
+            bad = ('cal_freqs', [str(Fr(float(f))) for f in cal_freqs], [str(f) for f in cf], 'tie')
+        try:
+            final, corr = calc_correction(chunks, sc, corrprods, ['cal.' + ptype], data_freqs, {'cal': cal_freqs})
+            arr = corr.compute(scheduler='synchronous')
+            segs = cat_segments(get_cal_product(sc, 'cal', ptype))
+        except Exception as e:       # noqa: BLE001
+            bad = bad or ('raises:' + type(e).__name__, repr(e)[:200], None, 'property')
+    used = sorted({i for pr in pairs for i in pr})
+    rel = channelisation(cf, df)
+    if not bad:
+        table = {int(d): sol for d, sol in case['sols']}
+        bounds = [e for e, _ in segs] + [N]
+        for k, (e, _) in enumerate(segs):
+            sol = table[e] if e in table else table[min(table)]
+            if ptype == 'K':
+                payload = [[q(f) for f in df], [q(f) for f in cf],
+                           [[] if sol[inp] is None else [q(Fr(sol[inp]))] for inp in inputs]]
+                op = 1
+            else:
+                payload = [[q(f) for f in df], [q(f) for f in cf],
+                           [[wire_opv(None if v is None else (Fr(v[0]), Fr(v[1]))) for v in sol[inp]] for inp in inputs]]
+                op = 2
+            outs = ctx.model([[143, [op] + payload + [a, b]] for a, b in pairs])
+            for j, ((a, b), (mo, sp)) in enumerate(zip(pairs, outs)):
+                mo, sp = [parse_opv(x) for x in mo], [parse_opv(x) for x in sp]
+                for dump in range(bounds[k], bounds[k + 1]):
+                    row = arr[dump, :, j]
+                    for ref, kind in ((sp, 'property'), (mo, 'tie')):
+                        wrong = [c for c in range(len(df)) if not same_tol(row[c], ref[c], TOL_DELIVERED)]
+                        if wrong and not bad:
+                            c = wrong[0]
+                            flip = (ref[c] is None) != bool(np.isnan(row[c]))
+                            bad = ('nan_structure' if flip else 'value', show(row), show_m(ref), kind)
+    if bad:
+        ctx.disagree('kind=delivered;type=%s;channels=%s;symptom=%s' % (ptype, rel, bad[0]), case, bad[1], bad[2],
+                     'the correction calc_correction delivers for a data channel is not the %s rule evaluated at that '
+                     "channel's own frequency" % ('exp(-2 pi i delay f)' if ptype == 'K' else
+                                                  'inverted interpolated bandpass'), kind=bad[3])
+    ctx.traces_validated += 1
+    ctx.note_case(('D', repr(case)), nontrivial=len(df) >= 2 and len(case['sols']) >= 1, sample=case if len(df) <= 2 else None)
+    ctx.count('delivered:' + ptype)
+    ctx.count('delivered:channels=' + rel)
+
+
+def channelisation(cf, df):
+    """how the cal channels relate to the data channels"""
+    if len(cf) != len(df):
+        return 'other_count'
+    if cf == df:
+        return 'equal'
+    if len(cf) == 1:
+        return 'same_count_single'
+    if all(abs(a - b) <= Fr(1, 1000) for a, b in zip(cf, df)):
+        return 'same_count_within_1mHz'
+    wc, wd = cf[1] - cf[0], df[1] - df[0]
+    return 'same_count_' + ('offset' if wc == wd else 'cal_narrower' if wc < wd else 'cal_coarser')
+
+
+def gen_delivered(rng):
+    ptype = rng.choice(['K', 'B'])
+    ants = ['m000', 'm001', 'm002'][:rng.randint(1, 3)]
+    pols = ['v', 'h'] if rng.random() < 0.7 else ['h', 'v']
+    n = rng.choice([1, 2, 3, 4, 4, 6, 8])
+    width = rng.choice([Fr(1), Fr(2), Fr(1, 2), Fr(4)])
+    centre = Fr(rng.choice([100, 856, 1284, 64]))
+    cal = dict(n_chans=n, width=str(width), centre=str(centre))
+    cf = cal_grid(cal)
+    r = rng.random()
+    if r < 0.15:
+        df = list(cf)
+    elif r < 0.3:
+        df = [f + rng.choice([Fr(1, 2), -Fr(1, 2), Fr(3), -Fr(5), Fr(1, 4)]) * width for f in cf]     # offset
+    elif r < 0.45:
+        df = [centre + 2 * width * (k - n // 2) for k in range(n)]             # cal narrower than the data band
+    elif r < 0.6:
+        df = [centre + width / 2 * (k - n // 2) + rng.choice([0, 1]) * width / 4 for k in range(n)]   # cal coarser
+    elif r < 0.68:
+        df = [f + Fr(1, 2048) for f in cf]                                     # within 1 mHz
+    else:
+        m = rng.choice([x for x in (1, 2, 3, 4, 5, 8, 12) if x != n])
+        w2 = rng.choice([width, width / 2, 2 * width])
+        df = [centre + rng.choice([0, 1, -3]) * width + w2 * (k - m // 2) for k in range(m)]
+    inputs = sorted(a + p for a in ants for p in pols)
+    N = rng.randint(2, 6)
+    dumps = sorted(rng.sample(range(N), rng.randint(1, min(2, N))))
+    sols = []
+    dtype, small = (np.complex64, True) if rng.random() < 0.7 else (np.complex128, rng.random() < 0.5)
+    for i, dump in enumerate(dumps):
+        sol = {}
+        for inp in inputs:
+            if ptype == 'K':
+                sol[inp] = None if rng.random() < 0.2 else str(Fr(rng.randint(-64, 64), rng.choice([64, 256])) + Fr(i, 1024))
+            else:
+                pat = nan_pattern(rng, n)
+                vv = gen_values(rng, n, small)
+                sol[inp] = [None if pat[c] else [str(vv[c][0]), str(vv[c][1])] for c in range(n)]
+        sols.append([dump, sol])
+    k = len(inputs)
+    pairs = [[a, b] for a in range(k) for b in range(a, k)]
+    rng.shuffle(pairs)
+    pairs = pairs[:rng.randint(1, 4)]
+    # every input has to be named by some corrprod (the others are not looked at by calc_correction): add autos
+    named = {i for pr in pairs for i in pr}
+    pairs += [[i, i] for i in range(k) if i not in named]
+    return dict(kind='delivered', ptype=ptype, ants=ants, pols=pols, cal=cal, data_freqs=[str(f) for f in df], N=N,
+                sols=sols, pairs=pairs, dtype=np.dtype(dtype).name)
+
+
 # ------------------------------------------------------------------ driver
 
 CHECKS = {'unwrap': lambda ctx, c: check_unwrap(ctx, [Fr(p) for p in c['phases']]), 'cinterp': check_cinterp,
           'delay': check_delay, 'bandpass': check_bandpass, 'gain': check_gain, 'flux': check_flux,
           'stitch': check_stitch, 'e2e': check_end_to_end, 'select': check_select, 'products': check_products,
-          'opened': check_opened, 'two_sets': check_two_sets,
+          'opened': check_opened, 'two_sets': check_two_sets, 'delivered': check_delivered,
           'normalise': lambda ctx, c: check_normalise(ctx, c['request'] if isinstance(c['request'], str)
                                                       else list(c['request']), c['streams'])}
 
@@ -1696,6 +1868,7 @@ def run(ctx):
     timed('flux', lambda: many(ctx.scale(150, 2500), check_flux, gen_flux))
     timed('stitch', lambda: many(ctx.scale(150, 2500), check_stitch, gen_stitch))
     timed('e2e', lambda: many(ctx.scale(100, 1500), check_end_to_end, gen_end_to_end))
+    timed('delivered', lambda: many(ctx.scale(300, 4000), check_delivered, gen_delivered))
     timed('select', lambda: many(ctx.scale(400, 6000), check_select, gen_select))
     timed('products', lambda: many(ctx.scale(400, 6000), check_products, gen_products))
     timed('opened', lambda: run_opened(ctx, rng, ctx.scale(40, 300), 6))
